@@ -173,8 +173,9 @@ def _replace_factors(factors: Dict[Dimension, List[Unit]]) -> RoughPlan:
 
         for dimension, unit, alternative in replacements:
             overall_sign = 1
-            if not unit.dimension.is_factor(dimension):
-                assert (unit**-1).dimension.is_factor(dimension)
+            if unit.dimension is not dimension:
+                # _splat files a unit with a negative exponent under the inverse
+                # of its dimension
                 overall_sign = -1
 
             ratio = _ratios[unit][alternative]
